@@ -117,11 +117,21 @@ StencilSafe(st, v, H, m) ==
   /\ ((MaxMagSeq(v) * st.sumabs) \div st.den + 2) * (H ^ m) < 268435456
 
 \* --- tolerances (named; bits of 2^-k, multiplied by the integer magnitude of the compared numbers) ----------
-TolDerivBits == 40      \* stencil vs delivered derivative: 2^-40 * StencilMag
-TolGlobDerivBits == 30  \* the same for ElementGlobal (coefficients from an inverted Vandermonde matrix)
-TolMapBits   == 44      \* transformation rule: 2^-44 * product of the magnitudes of the factors
-TolDualBits  == 44      \* duality of reference-mapped elements, partition of unity
-TolGlobBits  == 26      \* duality of ElementGlobal (inverse Vandermonde matrix)
+\* Calibration (audit of 2026-09-26, quick tier, seeds 0..2, all evaluation forms / histories / cell lists; worst observed
+\* residual relative to the magnitude K the tolerance is multiplied with -> chosen bits; every margin is >= 2^11.5):
+\*   stencil, reference-mapped  2^-50.5 (TriP4)        -> 38      stencil, ElementGlobal   2^-40.5 (Argyris hess) -> 28
+\*   transformation rule        2^-53.6                -> 40      nodal duality / PoU      2^-51.4 (TriP3)        -> 40
+\*   gdof / named duality       2^-37.4 (Argyris)      -> 24      forms / cell lists       2^-54 (0 on most)      -> 38
+\* All defects these clauses are meant for are O(1) relative to K (wrong sign, factor, index, coefficient).
+TolDerivBits == 38      \* stencil vs delivered derivative: 2^-38 * StencilMag
+TolGlobDerivBits == 28  \* the same for ElementGlobal (coefficients from an inverted Vandermonde matrix)
+TolMapBits   == 40      \* transformation rule: 2^-40 * product of the magnitudes of the factors
+TolDualBits  == 40      \* duality of reference-mapped elements, partition of unity
+TolGlobBits  == 24      \* duality of ElementGlobal (inverse Vandermonde matrix)
+\* two evaluations of the same function by different code paths (shared / per-element points, cell lists, wrapper vs
+\* component): they may differ by rounding (other einsum paths, other summation order), never bit-for-bit demanded;
+\* relative to the largest entry of the compared fields (an entry can be a cancelled sum of large terms)
+TolAgreeBits == 38
 TolOf(bits, K) == TolScaled(FxTol(bits), Max2(K, 1))
 FxNearK(a, b, bits, K) == FxNear(a, b, TolOf(bits, K))
 
@@ -141,7 +151,8 @@ FxNearK(a, b, bits, K) == FxNear(a, b, TolOf(bits, K))
 \* geo   "rect": the class is unisolvent / meant for axis-parallel rectangles and boxes only (tensor-product power basis
 \*       in global coordinates); it is driven on such cells only
 \* nn/nd normalisation constant of the flux / circulation functional of the class (a representation choice of the
-\*       source: ElementTetRT1 has div = 3 on the reference cell, i.e. flux 1/2 through every face)
+\*       source: ElementTetRT1 has div = 3 on the reference cell, i.e. flux 1/2 through every face) -- informational
+\*       (Drift_FunctionalNormalisation); the Duality clause does not depend on it
 R(cls, kind, fam, dd, td, pou, dual) ==
   [cls |-> cls, p |-> 0, kind |-> kind, fam |-> fam, dd |-> dd, td |-> td, pou |-> pou, dual |-> dual, nn |-> 1, nd |-> 1,
    geo |-> IF cls \in {"ElementQuadBFS", "ElementQuad2G", "ElementHexC1"} THEN "rect" ELSE "any"]
@@ -480,11 +491,18 @@ MapHolds(e) == \A i \in DOMAIN e.L : MapRuleAt(e, LeafRow(e.spec).fam, i)
 \* "Composite" (element_composite.py:105-114): for every i exactly one output carries a function of its component,
 \*             the other outputs are zero with the shapes of their own components, and i -> (component, function)
 \*             is a bijection (which one is the numbering convention owned by C04 / C19).
+\* entrywise |a - b| <= 2^-bits * (largest magnitude in a + largest magnitude in b)
+SeqNear(a, b, bits) ==
+  LET K == MaxMagSeq(a \o <<FxZero>>) + MaxMagSeq(b \o <<FxZero>>) IN
+  \A j \in DOMAIN a : FxNearK(a[j], b[j], bits, K)
 FieldsWF(fs) == \A f \in DOMAIN fs : /\ fs[f].name \in {FieldNames[k] : k \in 1..7} \cup {"div", "curl"}
                                      /\ AllFxSeq(fs[f].x)
 IsZeroFields(fs) == \A f \in DOMAIN fs : \A k \in DOMAIN fs[f].x : fs[f].x[k] = FxZero
-SameFields(a, b) == /\ Len(a) = Len(b)
-                    /\ \A f \in DOMAIN a : a[f].name = b[f].name /\ a[f].shape = b[f].shape /\ a[f].x = b[f].x
+\* (the wrapper calls its component and copies: same code path today, but bit-for-bit equality is not part of the property)
+SameFields(a, b, bits) ==
+  /\ Len(a) = Len(b)
+  /\ \A f \in DOMAIN a : /\ a[f].name = b[f].name /\ a[f].shape = b[f].shape /\ Len(a[f].x) = Len(b[f].x)
+                          /\ SeqNear(a[f].x, b[f].x, bits)
 SameLayout(a, b) == /\ Len(a) = Len(b) /\ \A f \in DOMAIN a : a[f].name = b[f].name /\ a[f].shape = b[f].shape
 WrapHarnessWF(e) == /\ SpecWF(e.spec) /\ e.wrap = Strip(e.spec)[1] /\ e.wrap \in {"Vector", "Composite"}
                     /\ e.dim \in 1..3
@@ -493,20 +511,22 @@ WrapWF(e) ==
   /\ \A i \in DOMAIN e.outer : \A k \in DOMAIN e.outer[i] : FieldsWF(e.outer[i][k])
   /\ \A k \in DOMAIN e.inner : \A j \in DOMAIN e.inner[k] : FieldsWF(e.inner[k][j])
 \* embedding of a field into entry n of a new leading axis of length dim: x = zeros except block n
-EmbedHolds(fo, fi, n, dim) ==
-  LET m == Len(fi.x) IN
+EmbedHolds(fo, fi, n, dim, bits) ==
+  LET m == Len(fi.x)  K == MaxMagSeq(fi.x \o <<FxZero>>) + 1 IN
   /\ fo.name = fi.name /\ fo.shape = <<dim>> \o fi.shape /\ Len(fo.x) = dim * m
-  /\ \A k \in 1..(dim * m) : fo.x[k] = (IF (k - 1) \div m = n - 1 THEN fi.x[k - (n - 1) * m] ELSE FxZero)
+  /\ \A k \in 1..(dim * m) : IF (k - 1) \div m = n - 1 THEN FxNearK(fo.x[k], fi.x[k - (n - 1) * m], bits, K)
+                               ELSE fo.x[k] = FxZero
+WrapBits(e) == IF SpecAnyGlobal(e.spec) THEN TolGlobBits ELSE TolAgreeBits
 VectorInherits(e) ==
   /\ Len(e.inner) = 1 /\ e.N = e.dim * Len(e.inner[1])
   /\ \A i \in 1..e.N :
        LET j == ((i - 1) \div e.dim) + 1  n == ((i - 1) % e.dim) + 1
            fo == e.outer[i][1]  fi == e.inner[1][j] IN
        /\ Len(e.outer[i]) = 1 /\ Len(fo) = Len(fi)
-       /\ \A f \in DOMAIN fo : EmbedHolds(fo[f], fi[f], n, e.dim)
+       /\ \A f \in DOMAIN fo : EmbedHolds(fo[f], fi[f], n, e.dim, WrapBits(e))
 CompositeMatches(e, i) ==      \* the pairs <<k, j>> function i may be
   {kj \in UNION {{<<k, j>> : j \in DOMAIN e.inner[k]} : k \in DOMAIN e.inner} :
-     /\ SameFields(e.outer[i][kj[1]], e.inner[kj[1]][kj[2]])
+     /\ SameFields(e.outer[i][kj[1]], e.inner[kj[1]][kj[2]], WrapBits(e))
      /\ \A k2 \in DOMAIN e.inner : k2 # kj[1] => /\ IsZeroFields(e.outer[i][k2])
                                                   /\ SameLayout(e.outer[i][k2], e.inner[k2][1])}
 CompositeInherits(e) ==
@@ -530,7 +550,7 @@ AgreeWF(e) ==
   /\ \A i \in DOMAIN e.A : \A k \in DOMAIN e.A[i] : FieldsWF(e.A[i][k])
   /\ \A i \in DOMAIN e.B : \A k \in DOMAIN e.B[i] : FieldsWF(e.B[i][k])
 AgreeHolds(e) ==
-  LET bits == IF SpecAnyGlobal(e.spec) THEN TolGlobBits ELSE TolMapBits IN
+  LET bits == IF SpecAnyGlobal(e.spec) THEN TolGlobBits ELSE TolAgreeBits IN
   \A i \in 1..e.N :
      /\ Len(e.A[i]) = Len(e.B[i])
      /\ \A k \in DOMAIN e.A[i] :
@@ -538,7 +558,7 @@ AgreeHolds(e) ==
           /\ \A f \in DOMAIN e.A[i][k] :
                LET a == e.A[i][k][f].x  b == e.B[i][k][f].x IN
                /\ Len(a) = Len(b)
-               /\ \A j \in DOMAIN a : FxNearK(a[j], b[j], bits, MagOf(a[j]) + MagOf(b[j]))
+               /\ SeqNear(a, b, bits)
 
 \* ---------------------------------------------------------------------------
 \* CellList: e = [spec, nt, idx, R, lists]  -- gbasis with an explicit cell list tind of every shape:
@@ -569,7 +589,7 @@ CellListWF(e) ==
             FieldsWF(e.lists[l].F[r][k]) /\ \A f \in DOMAIN e.lists[l].F[r][k] :
                                               ListFieldWF(e.lists[l].F[r][k][f], Len(e.lists[l].tind))
 CellListHolds(e) ==
-  LET bits == IF SpecAnyGlobal(e.spec) THEN TolGlobBits ELSE TolMapBits IN
+  LET bits == IF SpecAnyGlobal(e.spec) THEN TolGlobBits ELSE TolAgreeBits IN
   \A l \in DOMAIN e.lists :
      LET L == e.lists[l] IN
      /\ L.err = ""
@@ -581,7 +601,7 @@ CellListHolds(e) ==
                /\ \A f \in DOMAIN G[k] :
                     LET a == CellSlice(G[k][f], p)  b == S[k][f].x IN
                     /\ G[k][f].name = S[k][f].name /\ Len(a) = Len(b)
-                    /\ \A m \in DOMAIN a : FxNearK(a[m], b[m], bits, MagOf(a[m]) + MagOf(b[m]))
+                    /\ SeqNear(a, b, bits)
 
 \* ---------------------------------------------------------------------------
 \* Dual.  e.how =
@@ -605,20 +625,32 @@ EntVector(how, vs) ==
   ELSE Cross3(VSub(vs[2], vs[1]), VSub(vs[Len(vs)], vs[1]))
 EntFactor(how, vs) == IF how = "flux" /\ Len(vs[1]) = 3 /\ Len(vs) = 3 THEN 2 ELSE 1
 FxDotInt(u, V) == FxSumAll([c \in DOMAIN u |-> FxMulSmall(u[c], V[c])])
+\* The statement fixes duality, not the NORMALISATION of the functional nor its sign (the source scales ElementTetRT1 to
+\* flux 1/2 per face, the others to 1): demanded is  l_f(phi_i) = 0 for i # f,  constant along the entity, and ONE
+\* non-zero constant |c| for all entities of the cell.  The tabulated constant nn/nd is informational only.
+FunctionalData(e, f) ==
+  LET vs == [k \in DOMAIN e.ents[f] |-> e.verts[e.ents[f][k]]]
+      V  == EntVector(e.how, vs) IN
+  [V |-> V, fac |-> EntFactor(e.how, vs), big |-> MaxSet({Abs(V[c]) : c \in DOMAIN V}) + 1]
+FunctionalAt(e, f, q, i) == FxDotInt(e.S[f][q][i], FunctionalData(e, f).V)
+\* the constant of the cell: |l_1(phi_1)| at the first sample point, per unit of the entity factor
 FunctionalHolds(e) ==
-  LET row == DualRow(e) IN
-  \A f \in DOMAIN e.ents :
-     LET vs == [k \in DOMAIN e.ents[f] |-> e.verts[e.ents[f][k]]]
-         V  == EntVector(e.how, vs)
-         fac == EntFactor(e.how, vs)
-         big == MaxSet({Abs(V[c]) : c \in DOMAIN V}) + 1
-         x(q, i) == FxMulSmall(FxDotInt(e.S[f][q][i], V), row.nd)
-     IN \A i \in 1..e.N :
+  LET c0 == FxAbs(FunctionalAt(e, 1, 1, 1))
+      f0 == FunctionalData(e, 1).fac IN
+  /\ FxLeq(FxTol(10), c0)                         \* not zero
+  /\ \A f \in DOMAIN e.ents :
+       LET D == FunctionalData(e, f) IN
+       \A i \in 1..e.N :
           IF i = f
-          THEN \E s \in {1, -1} : \A q \in DOMAIN e.S[f] :
-                 FxNearK(x(q, i), FxInt(s * fac * row.nn), TolDualBits, 4 * big * row.nd * MaxMagSeq(e.S[f][q][i]))
+          THEN \E s \in {1, -1} : \A q \in DOMAIN e.S[f] :      \* f0 * l_f(phi_f) = s * fac_f * c0
+                 FxNearK(FxMulSmall(FunctionalAt(e, f, q, i), f0), FxMulSmall(c0, s * D.fac), TolDualBits,
+                         8 * D.big * MaxMagSeq(e.S[f][q][i]) + 8 * MagOf(c0))
           ELSE \A q \in DOMAIN e.S[f] :
-                 FxNearK(x(q, i), FxZero, TolDualBits, 4 * big * row.nd * MaxMagSeq(e.S[f][q][i]))
+                 FxNearK(FunctionalAt(e, f, q, i), FxZero, TolDualBits, 4 * D.big * MaxMagSeq(e.S[f][q][i]))
+FunctionalNormalisationAsTabulated(e) ==
+  LET row == DualRow(e)  D == FunctionalData(e, 1) IN
+  \E s \in {1, -1} : FxNearK(FxMulSmall(FunctionalAt(e, 1, 1, 1), row.nd), FxInt(s * D.fac * row.nn), TolDualBits,
+                             4 * D.big * row.nd * MaxMagSeq(e.S[1][1][1]))
 FunctionalWF(e) ==
   /\ Len(e.verts) = NVertsOf(e.kind) /\ \A v \in DOMAIN e.verts : Len(e.verts[v]) = e.dim
   /\ \A v \in DOMAIN e.verts : \A c \in 1..e.dim : e.verts[v][c] \in -64..64
@@ -744,7 +776,9 @@ C09Clauses(e) ==
           [] e.a = "Map"   -> [MappingRule |-> MapHolds(e)]
           [] e.a = "Wrap"  -> [WrapperInherits |-> WrapHolds(e)]
           [] e.a = "Dual"  -> [Duality |-> DualHolds(e)] @@
-                              (IF e.how = "nodal" THEN [Drift_DofLocInCell |-> DofLocsInCell(e)] ELSE <<>>)
+                              (IF e.how = "nodal" THEN [Drift_DofLocInCell |-> DofLocsInCell(e)] ELSE <<>>) @@
+                              (IF e.how \in {"flux", "circ"}
+                               THEN [Drift_FunctionalNormalisation |-> FunctionalNormalisationAsTabulated(e)] ELSE <<>>)
           [] e.a = "Agree" -> [EvaluationFormsAgree |-> AgreeHolds(e)]
           [] e.a = "CellList" -> [CellListCommutes |-> CellListHolds(e)]
           [] e.a = "PoU"   -> [PartitionOfUnity |-> PoUHolds(e)])
